@@ -32,6 +32,11 @@ Loops2 == {
                      SLet("Signal", "r", Bin("+", Ref("t"), Num(1)))>>, "val"),
   PL("bodycall", <<InA, SFunc("thr", <<[ty |-> "Signal", n |-> "s"], [ty |-> "int", n |-> "n"]>>, <<>>, Bin(">", Ref("s"), Bin("*", Ref("n"), Num(2)))),
                    SFor("i", IRange(Num(0), Num(3), Num(0)), <<SLet("Signal", "c", CallE("thr", <<A, I>>)), Lamp("e", Bin("*", I, Num(2)), Num(0)), En("e", Ref("c"))>>)>>, "val"),
+  \* the body calls a function whose PARAMETER has the iterator's name, with an argument that differs from the iterator
+  PL("bodycallshadow", <<InA, SFunc("thr", <<[ty |-> "Signal", n |-> "s"], [ty |-> "int", n |-> "i"]>>, <<>>, Bin(">", Ref("s"), Bin("*", Ref("i"), Num(2)))),
+                   SFor("i", IRange(Num(0), Num(3), Num(0)), <<SLet("Signal", "c", CallE("thr", <<A, Bin("+", I, Num(4))>>)), Lamp("e", Bin("*", I, Num(2)), Num(0)), En("e", Ref("c"))>>)>>, "val"),
+  PL("bodycallshadow", <<InA, SFunc("inc", <<[ty |-> "Signal", n |-> "i"]>>, <<>>, Bin("+", Ref("i"), Num(1))),
+                   SFor("i", IRange(Num(1), Num(4), Num(0)), <<SLet("Signal", "v", CallE("inc", <<A>>)), Lamp("e", Bin("*", I, Num(2)), Num(0)), En("e", Bin(">", Ref("v"), I))>>)>>, "val"),
   PL("bodymem", <<SIn("d", "signal-M", 5), SIn("g", "signal-G", 0), SFor("i", IRange(Num(0), Num(2), Num(0)),
        <<SMem("m", "signal-M"), SWrite("m", Ref("d"), "when", Bin(">", Ref("g"), I), Num(0)), Lamp("e", Bin("*", I, Num(2)), Num(0)), En("e", Bin(">", ReadE("m"), Num(0)))>>)>>, "hist")
  }
